@@ -82,5 +82,52 @@ def tagsHeld (s : TagState) : List Bytes :=
 /-- number of different tags among the requests that hold one -/
 def distinctTags (s : TagState) : Nat := (tagsHeld s).eraseDups.length
 
+/-! ### The construction step itself, as a function of what the entropy source answered
+
+  `randomBoundary` (via_modifier.go) asks `io.ReadFull(rand.Reader, buf[:10])` once.  The answer is
+  modelled as `Option Bytes`: `none` = the read FAILED (an error before ten bytes had arrived: a source
+  that fails at once, fails or ends after `k < 10` bytes, with any mixture of short reads before), `some b`
+  = the bytes it delivered.  The code panics on a failed read — the constructor does not return, no
+  instance exists; on ten bytes the tag is `name-hex(b)`.  Nothing else (clock, process id, a
+  pseudo-random generator) enters the tag. -/
+
+/-- `hex.EncodeToString`: one nibble as a lower-case hex digit -/
+def hexNib (n : Nat) : UInt8 := if n < 10 then UInt8.ofNat (48 + n) else UInt8.ofNat (87 + n)
+
+/-- `hex.EncodeToString` -/
+def hexEnc : Bytes → Bytes
+  | [] => []
+  | b :: rest => hexNib (b.toNat / 16) :: hexNib (b.toNat % 16) :: hexEnc rest
+
+/-- number of bytes of entropy in a boundary (`var buf [10]byte`) -/
+def boundaryBytes : Nat := 10
+
+/-- a constructed Via modifier: the name it was asked for and the tag it carries from then on -/
+structure Instance where
+  name : Bytes
+  tag : Bytes
+  deriving DecidableEq, Repr
+
+/-- the code: `NewViaModifier name` when the entropy source answered `ans` (`none` = the read failed:
+    `panic(err)`, the constructor does not return) -/
+def mkInstance (name : Bytes) : Option Bytes → Option Instance
+  | none => none
+  | some b => if b.length = boundaryBytes then some { name := name, tag := mkTag name (hexEnc b) } else none
+
+/-- big-endian bytes of `n`, `k` of them (`binary.BigEndian.PutUint16/64`) -/
+def beBytes : Nat → Nat → Bytes
+  | 0, _ => []
+  | k + 1, n => UInt8.ofNat (n / 256 ^ k % 256) :: beBytes k n
+
+/-- counter-model (NOT the code): a constructor that does not give up when the entropy source fails but
+    makes the boundary of the process id and the time in seconds -/
+def mkInstanceFallback (pid sec : Nat) (name : Bytes) : Option Bytes → Option Instance
+  | none => some { name := name, tag := mkTag name (hexEnc (beBytes 2 pid ++ beBytes 8 sec)) }
+  | some b => mkInstance name (some b)
+
+/-- the instances that exist after a series of constructor calls, in order of construction -/
+def liveInstances (mk : Option Bytes → Option Instance) (answers : List (Option Bytes)) : List Instance :=
+  answers.filterMap mk
+
 end C18
 end FwdVerif
